@@ -74,6 +74,17 @@ func worse(a, b string) string {
 	return accept
 }
 
+// throughCollection reports whether the path steps through a repeated or map
+// field before its last component (no single message is denoted then).
+func throughCollection(fds []protoreflect.FieldDescriptor) bool {
+	for _, fd := range fds[:len(fds)-1] {
+		if fd.IsList() || fd.IsMap() {
+			return true
+		}
+	}
+	return false
+}
+
 // expect derives the required verdict from the case alone.
 func expect(c Case) (string, string) {
 	verdict, why := accept, "valid"
@@ -158,6 +169,8 @@ func expect(c Case) (string, string) {
 				set(reject, "unresolvable body selector "+b.Body)
 			} else if l := fds[len(fds)-1]; l.Message() == nil || l.IsList() || l.IsMap() {
 				set(either, "body selects a non-message field")
+			} else if throughCollection(fds) {
+				set(either, "body selector through repeated/map")
 			}
 		}
 		if b.Resp != "" {
@@ -166,6 +179,8 @@ func expect(c Case) (string, string) {
 				set(reject, "unresolvable response_body selector "+b.Resp)
 			} else if l := fds[len(fds)-1]; l.Message() == nil || l.IsList() || l.IsMap() {
 				set(either, "response_body selects a non-message field")
+			} else if throughCollection(fds) {
+				set(either, "response_body selector through repeated/map")
 			}
 		}
 		if b.Verb == "" {
@@ -429,11 +444,11 @@ func genCase(t *rapid.T) Case {
 		}
 		c.New[pick].Tmpl = s
 	case "fieldfault":
-		f := rapid.SampledFrom([]string{"nope", "name.id", "Name", "sub.nope", "sub.inner.id.x", "tags", "sub", "page_size", "pageSize"}).Draw(t, "ff")
+		f := rapid.SampledFrom([]string{"nope", "name.id", "Name", "sub.nope", "sub.inner.id.x", "tags", "sub", "page_size", "pageSize", "labels", "labels.key", "labels.value", "subs.key", "subs.value.name", "subs.value.inner.id"}).Draw(t, "ff")
 		c.New[pick].Tmpl = "/" + rapid.SampledFrom(c16Lits).Draw(t, "fl") + "/{" + f + "}"
 	case "selector":
-		c.New[pick].Body = rapid.SampledFrom([]string{"", "*", "sub", "sub.inner", "nope", "sub.nope", "name", "tags", "*"}).Draw(t, "body")
-		c.New[pick].Resp = rapid.SampledFrom([]string{"", "sub", "sub.inner", "nope", "sub.nope", "name", ""}).Draw(t, "resp")
+		c.New[pick].Body = rapid.SampledFrom([]string{"", "*", "sub", "sub.inner", "nope", "sub.nope", "name", "tags", "*", "subs", "subs.value", "subs.value.inner", "labels.value"}).Draw(t, "body")
+		c.New[pick].Resp = rapid.SampledFrom([]string{"", "sub", "sub.inner", "nope", "sub.nope", "name", "", "subs.value", "labels"}).Draw(t, "resp")
 	case "nested":
 		for len(c.New) < 3 {
 			c.New = append(c.New, valid())
